@@ -163,11 +163,10 @@ def gen_line(rng, tag, span, feat):
         shape = rng.random()
         raman = rng.random() < feat['raman']
         if raman:
-            # an amplifier with an operator delta_p has to precede a Raman span (else gnpy raises, known finding)
-            if not els or els[-1]['k'] != 'A':
-                els.append(gen_amp(rng, uid('amp'), span['power_mode'], before_raman=True))
-            else:
-                els[-1].setdefault('op', {})['delta_p'] = rng.choice([0, 1])
+            # a Raman span behind whatever comes before: ROADM (inserted booster), fibre (inserted inline amplifier),
+            # fused, or a user amplifier with or without operator delta_p
+            if rng.random() < 0.4:
+                els.append(gen_amp(rng, uid('amp'), span['power_mode'], before_raman=rng.random() < 0.5))
             els.append(gen_fiber(rng, uid('raman'), max_km, raman=True))
         elif shape < 0.07:
             # a short span of several fibres spliced by Fused nodes (below the padding), user att_in on any of them
@@ -202,18 +201,12 @@ def gen_line(rng, tag, span, feat):
         last = s == nspan - 1
         if rng.random() < feat['user_amp'] * (0.7 if last else 1):
             els.append(gen_amp(rng, uid('amp'), span['power_mode']))
-    # a Raman fibre inside a fused run that ends with a plain fibre makes add_fiber_padding raise (finding F15):
-    # not in the valid stream
-    out = []
-    for e in els:
-        if e['k'] == 'U' and out and out[-1]['k'] == 'R':
-            continue
-        out.append(e)
-    return out
+    return els
 
 
 def gen_case(rng, kind='valid'):
-    """kind: valid | raman_auto (amplifier without operator delta_p before a Raman span) | risky_span (min_length
+    """kind: valid | raman_auto (Raman span behind an automatic amplifier / inside a fused run: regression stream for
+    the repaired finding F15) | risky_span (min_length
     above max_length) | lumped_split (lumped losses on fibres that get split)"""
     span = gen_span(rng, risky=(kind == 'risky_span'))
     feat = {'user_amp': rng.choice([0, 0.15, 0.3, 0.6]), 'raman': rng.choice([0, 0, 0, 0.08]),
@@ -381,7 +374,8 @@ def obs_el(n):
                 'con_in': fnum(n.params.con_in), 'con_out': fnum(n.params.con_out), 'att_in': fnum(n.params.att_in),
                 'lumped': [[float(x['position']), float(x['loss'])] for x in n.params.lumped_losses],
                 'loss': None if n.params.con_in is None or n.params.con_out is None else float(n.loss),
-                'variety': getattr(n, 'type_variety', None)}
+                'variety': getattr(n, 'type_variety', None),
+                'rgain': fnum(getattr(n, 'estimated_gain', None))}
     if isinstance(n, E.Fused):
         return {'k': 'U', 'uid': n.uid, 'loss': float(n.loss)}
     if isinstance(n, E.Edfa):
@@ -513,8 +507,16 @@ def line_term(ln, dst_first):
             f'{listlit([el_term(e) for e in ln["els"]])}')
 
 
-def cfg_term(c):
-    return f'cf {zlit(c["max"])} {zlit(c["padlen"])} {qlit(c["pad"])} {qlit(c["con_in"])} {qlit(c["con_out"])} {qlit(c["eol"])}'
+def cfg_term(c, rg=()):
+    """rg: (RamanFiber uid, gain returned by the first estimate_raman_gain call = round(estimated_gain, 2)): an input"""
+    rgl = listlit([f'({strlit(u)}%string, {qlit(g)})' for u, g in rg])
+    return (f'cf {zlit(c["max"])} {zlit(c["padlen"])} {qlit(c["pad"])} {qlit(c["con_in"])} {qlit(c["con_out"])} '
+            f'{qlit(c["eol"])} {rgl}')
+
+
+def first_estimates(lines):
+    """per RamanFiber of the designed lines: what its first gain estimate returned"""
+    return [(e['uid'], round(e['rgain'], 2)) for ln in lines for e in ln['els'] if e['k'] == 'R' and e.get('rgain') is not None]
 
 
 def parse_q(s):
@@ -719,13 +721,6 @@ def m_f9(v):
         d.get('lumped_beyond_subspan') is True and 'Lumped loss positions' in d.get('exc', '')
 
 
-def m_f15(v):
-    """span_loss / estimate_raman_gain called without input power for a Raman span"""
-    d = v.get('detail', {})
-    return v['key'] == 'design_raises' and d.get('exc_type') == 'TypeError' and d.get('raman_gain_without_power') is True \
-        and 'NoneType' in d.get('exc', '')
-
-
 def m_f16(v):
     """max(padding/0.2 km, 50 km) > max_length: ZeroDivisionError or spans above max_length"""
     d = v.get('detail', {})
@@ -746,11 +741,10 @@ def m_f18(v):
 
 
 # exception types the chain model can produce (anything else, e.g. ROADM equalisation errors, is outside the model)
-MODEL_EXCEPTIONS = ('TypeError', 'ZeroDivisionError', 'NetworkTopologyError')
+MODEL_EXCEPTIONS = ('ZeroDivisionError', 'NetworkTopologyError')
 
 MATCHERS = {
     'F9-split-lumped': m_f9,
-    'F15-raman-span-loss-without-power': m_f15,
     'F16-min-length-above-max-length': m_f16,
     'F17-padding-skipped-at-fused': m_f17,
     'F18-raman-split-to-fiber': m_f18,
@@ -876,7 +870,7 @@ def run(ctx):
             ctx.violation('design_raises', f'designed_network raised {rec["exc"][:200]}', sc,
                           detail=classify_exception(case, rec))
             det = classify_exception(case, rec)
-            in_model = rec['exc_type'] in MODEL_EXCEPTIONS and (rec['exc_type'] != 'TypeError' or det['raman_in_fused_run'])
+            in_model = rec['exc_type'] in MODEL_EXCEPTIONS
             if not in_model:
                 ctx.count('exception_outside_chain_model')
             if not tie and in_model:
@@ -900,7 +894,8 @@ def run(ctx):
         libs.add(tuple(rec['library']))
         # --- correspondence
         if not tie:
-            terms.append(f'run_case ({cfg_term(cfg)}) {listlit([line_term(ln, dst_first(ln)) for ln in rec["before"]])}')
+            terms.append(f'run_case ({cfg_term(cfg, first_estimates(rec["after"]))}) '
+                         f'{listlit([line_term(ln, dst_first(ln)) for ln in rec["before"]])}')
             meta.append((sc, rec, before_names))
     ctx.extra['t_drive'] = round(time.time() - t0, 1)
     t0 = time.time()
